@@ -134,6 +134,18 @@ func init() {
 			},
 		},
 		propCheck{
+			ID: "C35", Level: "exploration",
+			Rule: "one evaluation = one simulated run of the whole server (vitess listener/conn code, handler with spool pipeline and disconnect watcher, engine) in a synctest bubble on the simulated network: 1-4 real go-sql-driver connections issue text-protocol SELECTs whose result sizes sit on the seams of the spool pipeline (0,1,127..129,255..257,511..514,640+ rows; >= 5 batches), binary-protocol prepared SELECTs, aggregates, planning errors, errors raised while iterating, OK results (INSERT/UPDATE/DELETE with affected rows and last insert id), SLEEP; the tape decides delivery order between connections, fragmentation (incl. inside the 4-byte packet header), stalls while the clock advances, a bounded server->client half (back-pressure) and connection resets in the middle of a statement; oracle: client-observed columns, row sequence, counts and error numbers equal the engine's own result for the same statement (rendered by the harness), prefix-only under reset, every statement completes within 120 simulated seconds after the last fault, and after all clients ended the process list and Threads_* counters are back to zero; non-trivial = >= 2 connections or a fault fired; distinct = distinct hash of the event-kind sequence",
+			Real: []string{"server.Handler (doQuery, resultFor*Iter spool pipeline, connection watcher)", "vitess mysql.Listener / Conn protocol code", "go-sql-driver/mysql client", "engine + memory backend"},
+			Stub: []string{"sockets (simnet: scheduler-owned byte delivery)", "clock (synctest bubble)"},
+			Assumptions: []string{"interleaving is decided at network-delivery and client-operation granularity; the order in which the spool pipeline's goroutines run between two deliveries is left to the Go scheduler (GOMAXPROCS=1, asyncpreemptoff), and statements whose outcome depends on Go's random choice among ready select cases (errors raised after the first row) are confined to the volatile sub-check",
+				"write statements are exclusive (README: one writer goroutine at a time); resets are placed inside read-only statements so that the expected state stays known"},
+			Subs: []subCheck{
+				{ID: "C35", World: "wiresim", Quick: 2400, Thorough: 200000, QuickCap: 100, ThoroughCap: 1500, GC: "100",
+					Probes: []string{"fragment", "stall", "reset-mid-statement", "result-batches:5", "result-batches:6", "error-delivered:select-row-error"}},
+			},
+		},
+		propCheck{
 			ID: "C45", Level: "exploration",
 			Rule: "one evaluation = one simulated run: 2-4 tasks redact generated statements and single lexemes through one shared Mapping, the scheduler interleaving them at the RUnlock->Lock upgrade window; non-trivial = the upgrade window actually parked a goroutine; distinct = distinct hash of the event-kind sequence",
 			Real: []string{"sqlredact.Mapping", "sqlredact.RedactSQLForTraceInto", "vitess tokenizer and parser"},
